@@ -94,7 +94,9 @@ class C03(ParamsProp):
     def corpus(self):
         return [dict(c) for c in CLAUSES] + super().corpus()
 
-    def cases(self, tier, seed):
+    families = {"deep_ref_layers": 40}
+
+    def base_cases(self, tier, seed):
         N = 1200 if tier == "quick" else 30000
         for i in range(N):
             r = Rng(seed, "C03", i)
